@@ -42,6 +42,9 @@ def explore(
         drive a twin object in lock-step).
     """
     ref = Ref(spec)
+    # one instance object for all branches: nothing may modify it (C14), and a
+    # component that does corrupts what later objects read - which is then seen
+    shared_inst = impl.mk_instance(spec)
     base_sig = dict(sig or {})
     base_sig.setdefault("filters", "+".join(filters) if filters else "none")
     states = set()
@@ -67,7 +70,7 @@ def explore(
             on_dispatch(live, c)
 
     def build(hist):
-        inst = impl.mk_instance(spec)
+        inst = shared_inst
         d = impl.mk_dispatcher(inst, filters)
         live = Live(inst, d)
         if make_extra is not None:
